@@ -880,4 +880,18 @@ def renderTemplate (fuel : Nat) (ctx : Scope) (prog : List Stmt) : Res String :=
   | .ok (σ, _) => .ok σ.out
   | .error e => .error e
 
+/-- A program that is not rendered as a stand-alone template: `prog` is the top level of a child
+template (the part after `{% extends %}`) or of a module loaded with `{% from … import … %}` /
+`{% import … %}`; its output is discarded, but its top-level assignments persist — into the layout,
+respectively the importing template, which is `tail` here (running in the same top-level scope and
+reading only what `prog` assigned / exported).  Captures inside `prog` (`{% set x %}…{% endset %}`,
+filter blocks) capture as usual although the surrounding output is thrown away. -/
+def renderAfter (fuel : Nat) (ctx : Scope) (prog tail : List Stmt) : Res String :=
+  match execBlock fuel ctx [0] { heap := [[]], out := "" } prog with
+  | .ok (σ, _) =>
+    match execBlock fuel ctx [0] { σ with out := "" } tail with
+    | .ok (σ', _) => .ok σ'.out
+    | .error e => .error e
+  | .error e => .error e
+
 end MJ.Eval
